@@ -479,7 +479,7 @@ def writeFITSTable(filename, table):
         # Cause error columns to always be floats even when they are set to -1
         if name.startswith('err_'):
             fmt = 'E'
-        elif name == 'uuid':
+        elif name == 'uuid' or isinstance(table[name][0], str):
             fmt = '{0}A'.format(max(len(val) for val in table[name]))
         else:
             fmt = FITSTableType(table[name][0])
